@@ -97,6 +97,14 @@ def cases(tier, seed):
     d.update(GEOS[1])
     d.update({"int_line": True, "time": 0.25, "seed": seed, "nspecies": 2, "ghost": 2})
     out.append({"desc": d, "opts": [[True, False, True]], "source": "list", "schedules": False})
+    # state / gradp / I_R files whose numbers have gaps or do not start at 0 (ranks without boxes on a level)
+    d = dict(meshes()[1])
+    d.update(GEOS[2])
+    d.update({"layouts": {"state": [{"files": [[0], [1]], "nums": [1, 3]}, {"files": [[0, 2], [1]], "nums": [2, 5]}],
+                          "gradp": [{"files": [[1], [0]], "nums": [4, 0]}, None],
+                          "I_R": [None, {"files": [[2], [1], [0]], "nums": [1, 7, 3]}]},
+              "ghost": 2, "nspecies": 2, "time": 0.5, "seed": seed, "int_line": False})
+    out.append({"desc": d, "opts": [[True, True, True], [False, False, False]], "source": "list", "schedules": True, "w": 8})
     # 27 + 20 boxes over five files per data subset, each subset scattered differently
     m = scope.many_box_mesh()
     d = {"domain": m["domain"], "levels": m["levels"]}
